@@ -26,12 +26,18 @@ CHECKS = {
  'C08': dict(technique='differential symbolic execution of the real LLVM IR (multi-bunch vs single-bunch objects) on native snapshots, z3 NRA unsat per bunch',
              text='bounded symbolic verification: for every data value of every bunch and every fractional displacement (integer parts fixed per row) the B-bunch kernels equal the single-bunch kernels cell by cell, for generic x/y kicks, both RF models, drift, Fokker-Planck (3/4-point) and identity, grids 6-9, 2-3 bunches, 1-4 interpolation points',
              ref='4/C08'),
+ 'C09': dict(technique='symbolic execution of PhaseSpace::updateX/YProjection, integrate, normalize, average, variance and the copy constructor from LLVM IR with symbolic grid data, projections and charges; z3 NRA',
+             text='bounded symbolic verification: after projection+integrate+normalize+refresh every bunch integrates to exactly its share (empty buckets to zero, total to the sum) for all non-negative data; mean/variance/rms are exactly the first/second moments of that bunch\'s projection divided by its measured charge and mention no other bunch; a copy has term-identical data, projections, charges, integral and moments; grids 4-8, 1-3 bunches, patterns with an empty bucket',
+             ref='4/C09'),
  'C15': dict(technique='symbolic execution of every applyTo (kick, drift, 4 Fokker-Planck tracking models) with symbolic position, displacement field and noise draw; z3 decides containment and particle==blob-centroid',
              text='bounded symbolic verification: for every real start position on the grid, every (unbounded) displacement field and noise draw the tracked coordinate stays in [0,n-1]^2; a particle on a grid point or half-way between rows moves exactly like the centroid of a unit blob transported by apply() (it>=2); the stochastic model damps towards the zero-energy bin with N(0,sqrt(2e1)/delta) noise',
              ref='4/C15'),
  'C19': dict(technique='symbolic execution of both DynamicRFKickMap constructors, __calcModulation, apply and getPastModulation from LLVM IR against the static RFKickMap (reals with uninterpreted tan/sin/asin; z3 IEEE theory for the zero-amplitude queue entries)',
              text='bounded symbolic verification: dynamic map with zero amplitudes has the same members and displacement field as the static map for all machine parameters (both models); zero-amplitude queue entries are bit-identical to (syncphase,1) for every finite noise draw; apply consumes exactly the queue front, kicks with it and records it; flush hands out every record once',
              ref='4/C19'),
+ 'C16': dict(technique='symbolic execution of the closed-form impedance models, Impedance::operator+= and makeImpedance from LLVM IR with symbolic physical parameters (pow/sqrt/log uninterpreted with sign axioms); z3 decides shape, passivity, formulas and the factory sum',
+             text='bounded symbolic verification (partial): every closed-form model returns n samples, exact zeros in the negative-frequency half, non-negative real part; free space == (306.3+176.9i)*pow(i*d,1/3), resistive wall == Z1*sqrt(i*d)*(1-i), collimator == Z0/pi*log(outer/inner) real positive; the factory equals the cell-wise sum of the selected contributions for all 24 switch combinations (parallel-plates model stubbed), nullptr iff none; parallel-plates limits and causality are NOT decided',
+             ref='4/C16'),
  'C18': dict(technique='symbolic execution of every call history (wakePotential, padBunchProfiles, updateCSR; length <= 2/3, independent symbolic profiles) from LLVM IR with the FFT as an uninterpreted function of its entire input buffer; term identity with a fresh object decided by z3',
              text='bounded symbolic verification: after every history of up to 2 (quick) / 3 (thorough) calls with arbitrary earlier profiles, each of the three queries returns terms identical to those of the untouched snapshot object, for power-of-two, composite and prime transform lengths and bunch patterns with empty buckets; FFT stub assumptions calibrated natively per configuration',
              ref='4/C18'),
